@@ -12,14 +12,14 @@ PARAM = {"L": "L", "La": "L", "Ls": "Y", "R": "R", "K": "R"}   # the parameter w
 ACTIONS = ["Register", "Remove", "Reset", "SetDefault", "ResetDefaults"]
 
 
-def cfg_text(max_hist, record, cand=("X", "Xa", "L", "x"), valid=("X", "Xa", "L"), clears=True, enabled=ACTIONS,
+def cfg_text(max_hist, record, cand=("X", "Xa", "L", "x"), clears=True, enabled=ACTIONS,
              invariants=("TypeOK", "BuiltinsPreserved", "NoDuplicateSymbols", "InconsistentRefused", "PrivateAreRegistered",
                          "BuiltinPrivacyKept", "OnlyValidSymbols")):
     q = lambda xs: "{" + ", ".join(f'"{x}"' for x in xs) + "}"  # noqa: E731
     inv = "" if record else "".join(f"INVARIANT {i}\n" for i in invariants)
     return (f"SPECIFICATION Spec\nCONSTANTS\n    Builtins = {q(BUILTINS)}\n    PrivateBuiltins = {{\"K\"}}\n"
             f"    UserClasses = {{\"U1\", \"U2\", \"U3\"}}\n    Inconsistent = {{\"U3\"}}\n    CandSymbols = {q(cand)}\n"
-            f"    ValidSymbols = {q(valid)}\n    ResetClearsPrivate = {'TRUE' if clears else 'FALSE'}\n    MaxHist = {max_hist}\n"
+            f"    ResetClearsPrivate = {'TRUE' if clears else 'FALSE'}\n    MaxHist = {max_hist}\n"
             f"    Record = {'TRUE' if record else 'FALSE'}\n    Enabled = {q(enabled)}\n{inv}")
 
 
@@ -107,6 +107,21 @@ class World:
             return e
         return None
 
+    def unrecognised(self):
+        """Registered user symbols that parse_cdc does not resolve to exactly their class."""
+        from pyimpspec import parse_cdc
+        out = []
+        for s, c in self.registry.get_elements(default_only=False, private=True).items():
+            if self.ids.get(c) not in self.user:
+                continue
+            try:
+                els = parse_cdc(s).get_elements()
+                if len(els) != 1 or type(els[0]) is not c:
+                    out.append(f"{s!r} -> {[type(e).__name__ for e in els]}")
+            except Exception as e:  # noqa: BLE001
+                out.append(f"{s!r} -> {type(e).__name__}")
+        return out
+
     def view(self, probes):
         from pyimpspec import parse_cdc
         from pyimpspec.exceptions import ParsingError
@@ -192,6 +207,13 @@ def judge_history(hist, ctx):
             if want != "" and exc is None:
                 # a refusal the property demands (inconsistent impedance, shadowing a built-in) must happen
                 kind = "violation" if (a == "Register" and (rec["c"] == "U3" or rec["s"] in BUILTINS)) or a == "Remove" else "drift"
+                lost = w.unrecognised() if kind == "drift" else []
+                if lost:
+                    # the symbol syntax is not itself demanded by C15, but "the parser recognises exactly the currently
+                    # registered symbols" is: an accepted symbol that parse_cdc does not resolve to its class breaks it
+                    res.append(("violation", f"{a}{q}:accepted-but-not-recognised", k,
+                                f"model: refused with {want}; implementation accepted, and the parser does not recognise the registered symbol(s) {lost}", {}))
+                    break
                 res.append((kind, f"{a}{q}:accepted", k, f"model: refused with {want}; implementation accepted; views differing: {bad}", {}))
                 break
             if bad:
@@ -246,11 +268,11 @@ def run(tier: str, seed: int) -> int:
         v.model_violation("Registry", res, "the registry model violates its own invariant")
     require_coverage(res, ACTIONS)
     if tier == "quick":
-        plans = [(2, ("X", "Xa", "L", "x"), ("X", "Xa", "L")), (3, ("X", "L"), ("X", "L"))]
+        plans = [(2, ("X", "Xa", "L", "x")), (3, ("X", "L")), (2, ("XA", "X1", "X_a", "XaB", "1X", "X-a"))]
     else:
-        plans = [(3, ("X", "Xa", "L", "x"), ("X", "Xa", "L")), (4, ("X", "L"), ("X", "L"))]
-    for h, cand, valid in plans:
-        res = run_tlc("Registry", cfg_text(h, True, cand=cand, valid=valid), dump=True, timeout=3600)
+        plans = [(3, ("X", "Xa", "L", "x")), (4, ("X", "L")), (3, ("XA", "X1", "X_a", "XaB")), (2, ("1X", "_X", "X-a", "X a", "X1", "L"))]
+    for h, cand in plans:
+        res = run_tlc("Registry", cfg_text(h, True, cand=cand), dump=True, timeout=3600)
         try:
             v.add_tlc(f"histories MaxHist={h} symbols={'/'.join(cand)}", res)
             replay_dump(v, "Registry", res.dump_path, h, judge_history, None)
